@@ -20,6 +20,10 @@ CLAIMED = {
          "Necessary structural conditions decided on every path of the pool's source: (W)/(S)/(S') of the textbook condition-variable argument for every Wait/Signal/Broadcast "
          "(the argument that no wake-up is lost under ANY interleaving), queue mutators and worker table only under their locks, exactly one Run per dequeued task, a dequeued task is always handed to the worker, "
          "deferred deregistration, acyclic lock order. Does not decide liveness beyond lost wake-ups or the timing of the polling loops.", "3/C09"),
+ "C15": ("effect analysis over the call graph of the debugger hooks (observer purity), lock-flow condition-variable protocol for suspend/continue, guarded-by analysis of the debugger tables",
+         "Necessary structural conditions decided from source: nothing reachable from the hooks the evaluator calls mutates a scope, evaluates code or writes AST/runtime fields; visit hooks return nil; hook calls are nil-tested; "
+         "the suspend/continue hand-shake satisfies (W)/(S)/(S') so no continue command can be lost under any timing; debugger tables only under the debugger lock (exclusive for writes). "
+         "Does not decide equality of outcomes over programs x command histories.", "3/C15"),
 }
 
 NOT_YET = "check not built yet in this session (see DESIGN.md section 3 for the planned static rule)"
